@@ -35,7 +35,7 @@ namespace {
       J b = J::array();
       const int n = int(rng.range(1, max_n));
       for (int i = 0; i < n; ++i) {
-        const int k = int(rng.below(d <= 0 ? 6 : 16));
+        const int k = int(rng.below(d <= 0 ? 6 : 18));
         J s = J::object();
         switch (k) {
         case 0:
@@ -152,6 +152,20 @@ namespace {
           s["var"] = J(nm("x"));
           break;
         }
+        case 16:
+        case 17: {
+          // try / catch / finally whose clause variable has the name of an outer binding (a visible local or a
+          // global): inside the clause the name is the caught value, in the finally block and afterwards the outer one
+          s["k"] = J("tryfin");
+          if (!visible.empty() && rng.chance(600)) {
+            s["name"] = J(rng.pick(visible));
+          } else {
+            s["name"] = J("GLOB" + std::to_string(rng.below(N_GLOB)));
+          }
+          s["flag"] = J(int(rng.below(3)));
+          s["tag"] = J(next_tag++);
+          break;
+        }
         case 13:
           s["k"] = J("hf"); // call of a helper whose position in the function table changes during the history
           s["i"] = J(int(rng.below(3)));
@@ -207,6 +221,9 @@ namespace {
     if (k == "cb") return "cb(" + std::to_string(s.at("site").num()) + ");";
     if (k == "hf") return "t(hf" + std::to_string(s.at("i").num() % 3) + "(0));";
     if (k == "ifdecl") return "{ if (var " + name() + " = true) { t(" + tag() + ") } } t(" + name() + ");";
+    if (k == "tryfin") {
+      return "try { if (" + flag() + ") { throw(" + tag() + ") } } catch (" + name() + ") { t(" + name() + ") } finally { t(" + name() + ") } t(" + name() + ");";
+    }
     if (k == "rangedfor") {
       const std::string gname = "GLOB" + std::to_string(s.at("g").num() % N_GLOB);
       const std::string v = s.at("var").str();
@@ -326,6 +343,12 @@ namespace {
       } else if (k == "ifdecl") {
         trace.push_back(s.at("tag").num());                 // inside the if: the bool declared in the condition is not read
         trace.push_back(lookup(frame, s.at("name").str())); // after the block: the outer binding again
+      } else if (k == "tryfin") {
+        if (flags[s.at("flag").num() % 3]) {
+          trace.push_back(s.at("tag").num()); // inside the clause: the caught value
+        }
+        trace.push_back(lookup(frame, s.at("name").str())); // finally block: the clause variable is gone
+        trace.push_back(lookup(frame, s.at("name").str())); // after the statement
       } else if (k == "rangedfor") {
         trace.push_back(s.at("tag").num());                                 // first iteration: the local introduced by eval
         trace.push_back(globs[size_t(s.at("g").num()) % globs.size()]);     // second iteration: a fresh scope, the global
@@ -451,7 +474,12 @@ namespace {
         }
         ops = kept;
       }
-      p["sched"] = gen_sched(sched, T, uint64_t(n) * 10);
+      p["hint_points"] = J(T >= 2 && plan.chance(500));
+      p["sched"] = gen_sched(sched, T, uint64_t(n) * (p.at("hint_points").truthy() ? 60 : 10));
+      if (p.at("hint_points").truthy() && p.at("sched").has("mask")) {
+        // switch at every site, or only where hints are touched (and between operations)
+        p["sched"]["mask"] = J(plan.chance(500) ? 0u : ((1u << 10) | (1u << 5) | (1u << 6)));
+      }
       return p;
     }
 
@@ -461,6 +489,8 @@ namespace {
       const J &fns = plan.at("fns");
       const J &ops = plan.at("ops");
       chaiscript::detail::verif_ignore_lookup_hints().store(ignore_hints);
+      // H4: in some multi-actor plans every read / judgement / store of a lookup hint is a scheduling point
+      ::chaiscript_verif::hint_points_enabled().store(plan.has("hint_points") && plan.at("hint_points").truthy());
       const std::string dir = run_dir() + "/c04/";
       ::mkdir(dir.c_str(), 0777);
       std::map<std::string, int64_t> files;
@@ -574,6 +604,7 @@ namespace {
         chai.release();
       }
       chaiscript::detail::verif_ignore_lookup_hints().store(false);
+      ::chaiscript_verif::hint_points_enabled().store(false);
       return out;
     }
 
